@@ -202,7 +202,7 @@ def dups_case(ck, camp, case: dict, kind: str):
         camp.hit("$ref-only alias of a same-named definition")
     inp = {"target": "e2e-dups", "doc": doc, "expect": expect, "opts": opts, "kind": kind}
     cls = {"oracle": "e2e-dups", "kind": kind, "keep_model_order": bool(opts.get("keep_model_order")), "reuse_model": bool(opts.get("reuse_model")),
-           "alias_as_base": ft["alias_as_base"]}
+           "alias_as_base": ft["alias_as_base"], "collapse_root_models": bool(opts.get("collapse_root_models"))}
     res = e2e.run_generate(doc, model=kind, opts=opts, timeout=WATCHDOG_S)
     res = cpuwatch.settle_hang(camp, res, lambda t: e2e.run_generate(doc, model=kind, opts=opts, timeout=t))  # a loaded machine is not a hang
     if res is None:
@@ -228,6 +228,16 @@ def dups_case(ck, camp, case: dict, kind: str):
     for group in expect:
         if not any(x in names for x in group):
             ck.fail({**cls, "mechanism": "lost_or_duplicated"}, inp, f"no class for the definition(s) {group}: top level binds {names}")
+            return None
+    if opts.get("collapse_root_models"):
+        # --collapse-root-models takes a root model out of the module only when it was inlined wherever it was used:
+        # a definition of the document that the module still NAMES (annotation, base class) must still be bound
+        import ast
+
+        named = {x.id for x in ast.walk(ast.parse(res.code)) if isinstance(x, ast.Name)}
+        gone = sorted(k for k in doc.get("definitions", {}) if k in named and k not in names)
+        if gone:
+            ck.fail({**cls, "mechanism": "lost_while_referenced"}, inp, f"the module names {gone} but binds no such class: top level binds {names}")
             return None
     pos = {nm: k for k, nm in enumerate(names)}
     for what, nm, info in defs:
